@@ -159,7 +159,14 @@ def gen_inlines(c, depth=0, allow_link=True, allow_break=True, n=None, allow_htm
         if it.kind == 'code' and not out and _code_delim(it)[0] >= 3:
             out.append(gen_word(c))
             out.append(N('sp'))
+        if it.kind == 'reflink' and not it.image and out and out[-1].kind == 'sp' and not c.canonical and not c.reflow and t.chance(12):
+            # '!' and a code span directly before the bracket: the bracket still opens a link, not an image
+            out.append(N('text', s='!'))
+            out.append(N('code', content='a', extra=0))
         out.append(it)
+        if it.kind == 'reflink' and it.rec is not None and it.form == 'shortcut' and not c.canonical and not c.reflow and t.chance(16):
+            # a bracket that opens no link label does not stop a shortcut reference
+            out.append(N('text', s=t.choice(['[', '[x', '[x[y'])))
     return out
 
 
@@ -580,9 +587,18 @@ def plan_labels(c):
         label = pool.pop(t.below(len(pool)))
         defs = []
         for j in range(1 + t.weighted([(4, 0), (2, 1), (1, 2)])):
+            dests = ['/url%d%d' % (i, j), 'http://h%d/p%d' % (i, j), '/a_b%d%d' % (i, j)]
+            titles = ['', '', 't%d%d' % (i, j), 'two words %d' % j]
+            if not c.reflow and not c.canonical:
+                # source spellings with backslash escapes and character references (real ones and look-alikes)
+                if 'dest_escape' not in c.exclude:
+                    dests += ['/a\\*b%d%d' % (i, j), '/a\\\\*b%d%d' % (i, j)]
+                    titles += ['t\\*%d' % j, 't\\\\*%d' % j, 'say \\"hi\\" %d' % j]
+                if 'charref' not in c.exclude:
+                    dests += ['/u&amp;v%d%d' % (i, j), '/u&ltx;%d%d' % (i, j), '/u&copyb%d%d' % (i, j), '/q?a=1&amp;amp;b=%d%d' % (i, j)]
+                    titles += ['&amp;lt; %d' % j, 'Q&A &copy %d' % j, '&#35;&ouml;&nosuch; %d' % j]
             defs.append({'spelled': respell_label(t, label) if j else (label if t.chance(160) else respell_label(t, label)),
-                         'dest': t.choice(['/url%d%d' % (i, j), 'http://h%d/p%d' % (i, j), '/a_b%d%d' % (i, j)]),
-                         'angle': t.chance(50), 'title': t.choice(['', '', 't%d%d' % (i, j), 'two words %d' % j]),
+                         'dest': t.choice(dests), 'angle': t.chance(50), 'title': t.choice(titles),
                          'tq': t.choice(['"', "'", '(']), 'order': None,
                          # the destination and / or the title may stand on the next line (canonical: one line)
                          'dest_nl': (not c.canonical and not c.reflow and t.chance(40)),
